@@ -42,6 +42,22 @@ Section Tree.
     | EReverb csz asz _ _ _ _ => SReverb (reverb_new csz asz)
     end.
 
+  (** [on_change_sample_rate]: [e'] is the effect at the NEW rate.  Delay lines are reallocated
+      (zeros, new length; the feedback effects are told too), the reverb rebuilds its filters;
+      filter / EQ / compressor state is kept (their coefficients follow [dt]). *)
+  Fixpoint change_rate (e' : effect F) (s : estate F) {struct e'} : estate F :=
+    match e', s with
+    | EDelay d _ _ fx, SDelay _ sub =>
+        SDelay (repeat fr_zero (Nat.max d 1))
+               ((fix go (l : list (effect F)) (ss : list (estate F)) {struct l} : list (estate F) :=
+                   match l, ss with
+                   | e1 :: l', s1 :: ss' => change_rate e1 s1 :: go l' ss'
+                   | _, _ => ss
+                   end) fx sub)
+    | EReverb csz asz _ _ _ _, SReverb _ => SReverb (reverb_new csz asz)
+    | _, _ => s
+    end.
+
   (** lifting of a stateless / one-state step to [estate] *)
   Definition lift0 (f : frame F -> frame F) (s : estate F) (x : frame F) : estate F * frame F := (s, f x).
 
